@@ -62,9 +62,16 @@ type tcase struct {
 	Hist string   `json:"hist,omitempty"`
 	Form string   `json:"form,omitempty"`
 	Twin []string `json:"twin,omitempty"` // union forms: surviving members "name:value", from the model
+	// Subs[i]: a further substatement of member i that must NOT influence the numbering ("" none):
+	//   sc / sd / so  status current / deprecated / obsolete      de  description      re  reference
+	//   fd / fu       if-feature with a defined / an undefined feature                 ex  an extension statement
+	// a trailing "<" puts it before the value / position statement instead of after it.  The model never sees it.
+	Subs []string `json:"subs,omitempty"`
 }
 
-func (c tcase) key() string { return c.req() + " " + c.Hist + " " + c.Form }
+func (c tcase) key() string {
+	return c.req() + " " + c.Hist + " " + c.Form + " " + strings.Join(c.Subs, ",")
+}
 
 func (c tcase) req() string {
 	op := "enum.text"
@@ -225,6 +232,13 @@ func quoteYang(raw []byte) string {
 	return sb.String()
 }
 
+var subStatements = map[string]string{
+	"sc": "status current;", "sd": "status deprecated;", "so": "status obsolete;",
+	"de": "description \"d\";", "re": "reference \"r\";",
+	"fd": "if-feature f;", "fu": "if-feature nosuch;", "ex": "m:note \"n\";",
+}
+var subCodes = []string{"sc", "sd", "so", "de", "re", "fd", "fu", "ex", "so<", "de<", "fd<", "ex<"}
+
 // yangFiles returns the files of a text case in parse order (name, text) and the 1-based line of
 // m.yang on which the first generated member stands (every member has a line of its own).
 func yangFiles(c tcase) (files [][2]string, firstLine int) {
@@ -234,15 +248,31 @@ func yangFiles(c tcase) (files [][2]string, firstLine int) {
 	}
 	var mem strings.Builder
 	for i := range c.Names {
-		if c.Vals[i] == "nil" {
+		sub, before := "", false
+		if i < len(c.Subs) && c.Subs[i] != "" {
+			code := c.Subs[i]
+			if strings.HasSuffix(code, "<") {
+				code, before = code[:len(code)-1], true
+			}
+			sub = subStatements[code] + " "
+		}
+		switch {
+		case c.Vals[i] == "nil" && sub == "":
 			mem.WriteString(mk + " " + c.Names[i] + ";\n")
-		} else {
+		case c.Vals[i] == "nil":
+			mem.WriteString(mk + " " + c.Names[i] + " { " + sub + "}\n")
+		default:
 			raw, _ := lib.UnHex(c.Vals[i])
-			mem.WriteString(mk + " " + c.Names[i] + " { " + vk + " " + quoteYang(raw) + "; }\n")
+			val := vk + " " + quoteYang(raw) + "; "
+			if before {
+				mem.WriteString(mk + " " + c.Names[i] + " { " + sub + val + "}\n")
+			} else {
+				mem.WriteString(mk + " " + c.Names[i] + " { " + val + sub + "}\n")
+			}
 		}
 	}
 	gen := "type " + tn + " {\n" + mem.String() + " }" // the generated type statement; members start on the next line
-	head := "module m { namespace \"urn:m\"; prefix m;\n"
+	head := "module m { namespace \"urn:m\"; prefix m; feature f; extension note { argument t; }\n"
 	var pre, post string
 	switch c.Form {
 	case "":
@@ -302,7 +332,7 @@ func yangFiles(c tcase) (files [][2]string, firstLine int) {
 		if c.Form == "da" {
 			how = "add"
 		}
-		pre = "module m { namespace \"urn:m\"; prefix m; import o { prefix o; }\n deviation /o:l { deviate " + how + " {\n "
+		pre = "module m { namespace \"urn:m\"; prefix m; import o { prefix o; } feature f; extension note { argument t; }\n deviation /o:l { deviate " + how + " {\n "
 		post = " } } }\n"
 	default:
 		return nil, 0
@@ -768,10 +798,11 @@ func nearOf(kind, form string, twin []string) (out []string, ok bool) {
 // expand returns the text case c (a bare statement list) in every history in a leaf, in the typedef form
 // under the two histories that process twice (when wanted), and in every other placement (history a).
 // twin: the members the model's fold leaves (for the union placements).  rot < 0: every placement;
-// rot = 0, 1, 2: every third of the sixteen placements beyond leaf and typedef, starting at rot.
-func expand(c tcase, typedefToo bool, twin []string, rot int) []tcase {
+// rot = 0 .. mod-1: every mod-th of the sixteen placements beyond leaf and typedef, starting at rot.
+// hists: the histories in the leaf form.
+func expand(c tcase, typedefToo bool, twin []string, rot, mod int, hists []string) []tcase {
 	var out []tcase
-	for _, h := range []string{"a", "b", "c", "d"} {
+	for _, h := range hists {
 		x := c
 		x.Hist = h
 		out = append(out, x)
@@ -784,7 +815,7 @@ func expand(c tcase, typedefToo bool, twin []string, rot int) []tcase {
 		}
 	}
 	for k, fm := range newForms {
-		if rot >= 0 && k%3 != rot {
+		if rot >= 0 && k%mod != rot {
 			continue
 		}
 		x := c
@@ -795,7 +826,7 @@ func expand(c tcase, typedefToo bool, twin []string, rot int) []tcase {
 		out = append(out, x)
 	}
 	for k, fm := range nearForms {
-		if rot >= 0 && (len(newForms)+k)%3 != rot {
+		if rot >= 0 && (len(newForms)+k)%mod != rot {
 			continue
 		}
 		if near, ok := nearOf(c.Kind, fm, twin); ok {
@@ -858,6 +889,7 @@ func main() {
 		c          tcase
 		typedefToo bool
 		random     bool
+		decorated  bool
 	}
 	var bases []base
 	enumerated := int64(0)
@@ -884,6 +916,62 @@ func main() {
 			}
 			rec(nil, nil)
 		}
+	}
+	// member substatements that must not influence the numbering (status, description, reference, if-feature,
+	// extension), on explicit and implicit members in every position: lists of length 1 and 2 exhaustively over
+	// member position x substatement (quick: a seeded third of the twelve substatement variants for length 2),
+	// lists of length 3 as a seeded sample, once with one decorated member and once with every member decorated
+	rd := f.Rand(1)
+	decorated := int64(0)
+	for bi, nPlain := 0, len(bases); bi < nPlain; bi++ {
+		b := bases[bi]
+		if b.c.Path != "text" {
+			continue
+		}
+		n := len(b.c.Names)
+		deco := func(subs []string) {
+			for p, code := range subs {
+				if strings.HasSuffix(code, "<") && b.c.Vals[p] == "nil" {
+					subs[p] = code[:len(code)-1] // nothing to stand before
+				}
+			}
+			c := b.c
+			c.Subs = subs
+			bases = append(bases, base{c: c, decorated: true})
+			decorated++
+		}
+		if n <= 2 {
+			for p := 0; p < n; p++ {
+				third := -1
+				if n == 2 && !f.Thorough() {
+					third = rd.Intn(3)
+				}
+				for k, code := range subCodes {
+					if third >= 0 && k%3 != third {
+						continue
+					}
+					subs := make([]string, n)
+					subs[p] = code
+					deco(subs)
+				}
+			}
+			continue
+		}
+		every := 10
+		if f.Thorough() {
+			every = 2
+		}
+		if rd.Intn(every) != 0 {
+			continue
+		}
+		one := make([]string, n)
+		one[rd.Intn(n)] = subCodes[rd.Intn(len(subCodes))]
+		deco(one)
+		all := make([]string, n)
+		for p := range all {
+			all[p] = subCodes[rd.Intn(len(subCodes))]
+		}
+		deco(all)
 	}
 	// odd spellings on the text path: one or two members, the odd one first or second
 	oddCount := int64(0)
@@ -941,6 +1029,17 @@ func main() {
 			}
 			c.Vals = append(c.Vals, v)
 		}
+		if path == "text" {
+			c.Subs = make([]string, len(c.Names))
+			for p := range c.Subs {
+				if r.Intn(4) == 0 {
+					c.Subs[p] = subCodes[r.Intn(len(subCodes))]
+					if c.Vals[p] == "nil" {
+						c.Subs[p] = strings.TrimSuffix(c.Subs[p], "<")
+					}
+				}
+			}
+		}
 		bases = append(bases, base{c: c, random: true})
 	}
 
@@ -995,7 +1094,17 @@ func main() {
 			if !f.Thorough() && len(b.c.Names) >= 3 {
 				rot = r.Intn(3)
 			}
-			xs = expand(b.c, b.typedefToo, twinOf(b.c, baseAns[i]), rot)
+			if b.decorated {
+				// a member carries a further substatement: leaf (histories a, b) and, in the quick tier, a
+				// seeded quarter of the other placements
+				drot := -1
+				if !f.Thorough() {
+					drot = r.Intn(4)
+				}
+				xs = expand(b.c, drot < 0 || drot == 0, twinOf(b.c, baseAns[i]), drot, 4, []string{"a", "b"})
+			} else {
+				xs = expand(b.c, b.typedefToo, twinOf(b.c, baseAns[i]), rot, 3, []string{"a", "b", "c", "d"})
+			}
 		}
 		for _, x := range xs {
 			cases = append(cases, x)
@@ -1090,10 +1199,13 @@ func main() {
 		"its twin (exactly the members the model's fold leaves), an unrelated enumeration and string, as the inline type of deviate replace / deviate add on a leaf of another module, "+
 		"inside a type statement that names an enumeration/bits typedef with other members (in a leaf, a derived typedef, a union, a leaf-list: goyang folds the written list from an empty table there), "+
 		"and as member 2 of a union behind a near twin (the surviving table with the zero-valued member renamed / the maximum-valued member renamed / one value changed / one more member), where every member of the union is read back and both tables must be intact; the random ones get one random placement. "+
+		"Members of text lists also carry substatements that must not influence the numbering - status current/deprecated/obsolete, description, reference, if-feature (defined and undefined feature), an extension statement, before or after the value - "+
+		"on explicit and implicit members in every position: lists of length 1 and 2 over member position x substatement, a seeded sample of the lists of length 3 (one member / every member decorated), a quarter of the members of the random lists; in a leaf (histories a, b) and a seeded quarter (thorough: all) of the placements; the model never sees them. "+
 		"On the direct path every view (Names, Values, NameMap, ValueMap, the maps ToInt and ToString, point lookups) is read back after EVERY Set/SetNext call and compared with the model's table after that prefix; the views must equal the maps and, for enumerations, be mutually inverse at every step. "+
 		"Every Go answer (errors as member index + class, Names, Values, NameMap, ValueMap, point lookups) of every run is compared with the compiled model and judged against the RFC 7950 assignment. "+
 		"distinct_nontrivial = distinct cases with at least two members (the assignment rule is about earlier members)", maxLen, oddCount, nRand)
 	res.Distribution["enumerated_sequences"] = enumerated
+	res.Distribution["lists_with_member_substatements"] = decorated
 	res.Distribution["cases_by_kind_and_path"] = byKey
 	res.Distribution["text_cases_by_history_and_form"] = byHist
 	res.Distribution["spec_accepts"] = accepted
